@@ -32,7 +32,7 @@ CHECKS = {
          'Every alloc/pop sequence over randomised sizes and capacities must behave like a bounded FIFO of byte strings: messages come out once, in order, unaltered; a full queue refuses; the occupancy never exceeds the capacity; no overrun of the ring (ASan, exact-size buffer).'),
  'C09': ('A', 'exploration', 'seeded store round trip with skipped and overlapping sample ids vs model with fill values', '7 C09',
          'Writes that skip ids must read back the documented fill (NaN for floats, zero for integers) for exactly the skipped ids; overlapping or backward ids keep the samples already accepted; statistics over float windows that contain skipped samples must describe the samples that are present (min/max exact, mean within their extremes, all-NaN for a window inside a gap).'),
- 'C10': ('A', 'exploration', 'seeded misuse programs (mutated ids, types, windows, lengths, extreme parameters, duplicate definitions, wrong-order calls) through reader, writer, threaded writer and copy with exact-size caller buffers under ASan/UBSan(bounds) and the accounting allocator; deterministic step budget as watchdog', '7 C10',
+ 'C10': ('A', 'exploration', 'seeded misuse programs (mutated ids, raw data type codes, windows, lengths, extreme parameters, oversized strings, duplicate definitions, wrong-order calls) through reader, writer, threaded writer and copy, followed by a seeded sequence of raw-layer calls (jls_raw_*: read, write, seek to arbitrary offsets, navigate, scan), all with exact-size caller buffers under ASan/UBSan(bounds) and the accounting allocator; deterministic step budget as watchdog', '7 C10',
          'No call sequence may crash, overrun a caller buffer or a library allocation, loop forever (edge budget), or leave memory allocated after close (allocator ledger must be empty); process-killing reports are attributed to the library frame that raised them.'),
  'C14': ('A', 'exploration', 'write-once monitor over the SimFS write log of every produced file', '7 C14',
          'Every backend write is classified: appends are free; a rewrite must target exactly the item_next field (plus header CRC) of an existing chunk header, a head table payload, or the file header length, and must not change any other byte. Anything else is a violation.'),
